@@ -34,6 +34,9 @@ func c05RulesFor(d alpha.Domain, bodies [][]refdl.Atom, withExprs bool) []refdl.
 			out = append(out, refdl.Rule{Head: h, Body: body})
 			if withExprs && len(vs) > 0 {
 				out = append(out, refdl.Rule{Head: h, Body: body, Exprs: [][]rx.Op{alpha.EqExpr(vs[0], d.C0)}})
+				// an expression that evaluates without error to a non-boolean value (the bound
+				// term itself) holds for no substitution - except when the value is `true`
+				out = append(out, refdl.Rule{Head: h, Body: body, Exprs: [][]rx.Op{{{Kind: rx.OpValue, V: rx.Var(vs[0])}}}})
 				if len(vs) > 1 {
 					out = append(out, refdl.Rule{Head: h, Body: body, Exprs: [][]rx.Op{alpha.EqVars(vs[0], vs[1])}})
 				}
